@@ -14,7 +14,7 @@ def plan(tier):
     units = {ty: Unit('obs_t%d' % ty, [H], ['TY=%d' % ty]) for ty in TYPES}
     qs = []
     for ty, (tn, ops) in TYPES.items():
-        maxlen = (2 if ty in (0, 1) else 2) if tier == 'quick' else (3 if ty in (0, 1) else 3)
+        maxlen = 2 if tier == 'quick' else (3 if ty == 0 else 2)
         for ln in range(1, maxlen + 1):
             for seq in itertools.product(ops, repeat=ln):
                 if tier == 'quick' and ty == 1 and ln == 2 and not (set(seq) & {3, 4}):
